@@ -217,6 +217,8 @@ def run(case):
                     coll.update(_mk_coll(new, new_al))
                 else:
                     pairs = [(KEYS[m["key"]], _mk_member(m, m["key"])) for m in new]
+                    if len(case["key"]) % 3 == 0:
+                        pairs = iter(pairs)        # a one-shot iterator (zip, generator) instead of a list
                     coll.update(pairs, tuple(tuple(m["al"]) for m in new) if new_al else None)
             elif op[0] == "refused":
                 k0 = list(coll.keys())[0]
